@@ -66,6 +66,8 @@ def isinstance_names(call, args):
             return [str(v)[6:]]
         if isinstance(v, type):
             return [v.__name__]
+        if isinstance(v, ExtFn):
+            return [v._name.split(".")[-1]]                 # fractions.Fraction, numbers.Real ...
         if isinstance(v, (tuple, list)):
             out = []
             for x in v:
@@ -80,10 +82,13 @@ def isinstance_names(call, args):
         if n is not None:
             return n
     c = call.args[1]
-    if isinstance(c, ast.Name):
-        return [c.id]
+
+    def src_name(e):
+        return e.id if isinstance(e, ast.Name) else e.attr if isinstance(e, ast.Attribute) else None
+    if isinstance(c, (ast.Name, ast.Attribute)):
+        return [src_name(c)]
     if isinstance(c, ast.Tuple):
-        return [e.id for e in c.elts if isinstance(e, ast.Name)]
+        return [src_name(e) for e in c.elts if src_name(e) is not None]
     return []
 
 
@@ -388,11 +393,26 @@ class Runner:
             r = self.user_hook(self, ev, call, name, recv, args, kwargs)
             if r is not NotImplemented:
                 return r
+            # a third-party function called through a local alias (`bezier = pynurbs.GeneratorKnotVector.bezier`)
+            if isinstance(f, ast.Name) and isinstance(recv, ExtFn):
+                r = self.user_hook(self, ev, call, recv._name.split(".")[-1], None, args, kwargs)
+                if r is not NotImplemented:
+                    return r
             # a helper extracted under a private name (`_split_two_jordans` for `split_two_jordans`) plays the same role
             if isinstance(name, str) and name.startswith("_") and not name.endswith("__") and name.lstrip("_") != name:
                 r = self.user_hook(self, ev, call, name.lstrip("_"), recv, args, kwargs)
                 if r is not NotImplemented:
                     return r
+        if isinstance(f, ast.Name) and f.id == "isinstance" and len(args) == 2 and not isinstance(args[0], (StandIn, Obj)):
+            # a concrete Python value tested against classes named in the source (fractions.Fraction, numbers.Real ...)
+            import decimal, fractions, numbers
+            known = {"int": int, "float": float, "str": str, "bool": bool, "tuple": tuple, "list": list, "dict": dict,
+                     "set": set, "bytes": bytes, "complex": complex, "Fraction": fractions.Fraction,
+                     "Decimal": decimal.Decimal, "Real": numbers.Real, "Number": numbers.Number,
+                     "Rational": numbers.Rational, "Integral": numbers.Integral, "Complex": numbers.Complex}
+            names = isinstance_names(call, args)
+            if names and all(n in known or n in self.ctx.model.classes for n in names):
+                return any(isinstance(args[0], known[n]) for n in names if n in known)
         if isinstance(recv, StandIn) and isinstance(f, ast.Attribute) and hasattr(recv, f.attr):
             return getattr(recv, f.attr)(*args, **kwargs)
         if isinstance(recv, (StandIn, Obj)) and isinstance(f, ast.Attribute) and f.attr in ("__copy__", "__deepcopy__") \
